@@ -63,6 +63,34 @@ func scanTranscript(t []byte, R ot.Label) []c04Hit {
 	return hits
 }
 
+// otLabelsInClear: a wire whose two labels are handed to OT must not have
+// either label elsewhere in the garbler's stream (the evaluator would hold a
+// label from the clear stream and, for the other choice bit, the second label
+// from the OT: their xor is R). OT payloads travel encrypted, so an honest
+// transcript never contains such a label.
+func otLabelsInClear(t []byte, sent [][]ot.Wire) (wire, off int, found bool) {
+	m := map[[16]byte]int{}
+	n := 0
+	for _, batch := range sent {
+		for _, w := range batch {
+			var d ot.LabelData
+			w.L0.GetData(&d)
+			m[d] = n
+			w.L1.GetData(&d)
+			m[d] = n
+			n++
+		}
+	}
+	var w [16]byte
+	for i := 0; i+16 <= len(t); i++ {
+		copy(w[:], t[i:i+16])
+		if k, ok := m[w]; ok {
+			return k, i, true
+		}
+	}
+	return 0, 0, false
+}
+
 // yaoField names the message field of a whole-circuit garbler transcript.
 func yaoField(c *circuit.Circuit, off int) string {
 	pos := 4 + 32
@@ -121,7 +149,7 @@ func init() {
 		ID: "C04", Level: "exploration",
 		Rule: "case = one complete session in one of three modes: whole-circuit (circuit.Garbler over a recording tap; OT in {CO, COT, COT-malicious, RSA}), streaming (Compiler.Stream) or the sha2pc round protocol (EncodeRound1 || EncodeRound3 on four curves). " +
 			"R is obtained at an API boundary (xor of the two labels of the wires handed to ot.OT.Send; for sha2pc from two runs on identical randomness whose garbler inputs differ in one bit). " +
-			"Oracle (offline, linear): hash set of the 16-byte window at every byte offset of the complete garbler->evaluator transcript; violation iff R is a member or some w and w xor R both are; the witness offsets are mapped to the message field. Distinct = hash of the transcript; every session is non-trivial (R is random).",
+			"Oracle (offline, linear): hash set of the 16-byte window at every byte offset of the complete garbler->evaluator transcript; violation iff R is a member, or some w and w xor R both are, or a label of a wire handed to OT.Send is a member; the witness offsets are mapped to the message field. Distinct = hash of the transcript; every session is non-trivial (R is random).",
 		Assumptions: []string{"the syntactic transcript property of the statement, not a simulation-based security argument", "a chance collision needs a 2^-128 event"},
 		NumCases: func(t string) int {
 			if t == "thorough" {
@@ -212,6 +240,9 @@ func c04Whole(cs *vrt.Case, r *vrt.Rng) {
 	cs.Count("transcript_bytes", int64(len(t)))
 	cs.Keys = append(cs.Keys, vrt.HashBytes(t))
 	cs.Seen("ot", o.otName)
+	if w, off, found := otLabelsInClear(t, o.rec.Sent); found {
+		cs.Violate("C04|whole|ot-wire-label-in-clear", fmt.Sprintf("a label of OT wire %d (an evaluator input) is also in the garbler's clear stream at byte %d (%s)", w, off, yaoField(c, off)), map[string]any{"case": desc})
+	}
 	for _, h := range scanTranscript(t, R) {
 		f1 := yaoField(c, h.off)
 		if h.kind == "offset-itself" {
@@ -258,6 +289,14 @@ func main(g [702]uint64, e uint64) uint64 {
 		}
 		return []string{v}
 	}, func(r *vrt.Rng) []string { return []string{fmt.Sprint(r.U64())} }},
+	// the evaluator's input wires straddle wire id 65536
+	{`package main
+func main(a uint8, b [8200]uint8) (uint8, uint8) {
+	return a + b[0] + b[8199], b[8191] ^ b[8192] ^ a
+}
+`, func(r *vrt.Rng) []string { return []string{fmt.Sprint(r.Intn(256))} }, func(r *vrt.Rng) []string {
+		return []string{"0x" + fmt.Sprintf("%x", r.Bytes(8200))}
+	}},
 }
 
 // clipStrings shortens very long input literals for reports (the case is
@@ -280,6 +319,15 @@ func c04Stream(cs *vrt.Case, r *vrt.Rng) {
 	desc := map[string]any{"mode": "streaming", "program": (cs.Idx / 6) % len(c04StreamPrograms), "ot": o.otName, "g": clipStrings(gIn), "e": clipStrings(eIn)}
 	cs.SetSample(desc)
 	if pi := firstPanic(o.g, o.e); pi != nil || o.g.err != nil || o.e.err != nil {
+		// what was transmitted before the failure has been transmitted:
+		// the leak oracles apply to an aborted session as well
+		if len(o.rec.Sent) > 0 {
+			t := o.d.link.Transcript(0)
+			if w, off, found := otLabelsInClear(t, o.rec.Sent); found {
+				cs.Violate("C04|stream|ot-wire-label-in-clear", fmt.Sprintf("aborted session: a label of OT wire %d (an evaluator input) is also in the garbler's clear stream at byte %d of %d", w, off, len(t)), map[string]any{"case": desc})
+				return
+			}
+		}
 		cs.Inconc(fmt.Sprintf("streaming session did not complete (C05's business): %v %v %v", pi, o.g.err, o.e.err))
 		return
 	}
@@ -292,6 +340,9 @@ func c04Stream(cs *vrt.Case, r *vrt.Rng) {
 	cs.Count("sessions_stream", 1)
 	cs.Count("transcript_bytes", int64(len(t)))
 	cs.Keys = append(cs.Keys, vrt.HashBytes(t))
+	if w, off, found := otLabelsInClear(t, o.rec.Sent); found {
+		cs.Violate("C04|stream|ot-wire-label-in-clear", fmt.Sprintf("a label of OT wire %d (an evaluator input) is also in the garbler's clear stream at byte %d of %d", w, off, len(t)), map[string]any{"case": desc})
+	}
 	for _, h := range scanTranscript(t, R) {
 		if h.kind == "offset-itself" {
 			cs.Violate("C04|stream|R-transmitted", fmt.Sprintf("the garbler's offset R appears in the streaming transcript at byte %d", h.off), map[string]any{"case": desc})
